@@ -1123,7 +1123,8 @@ tp_shutdown(tp_p tp) {
 	if (0 != tp->shutdown)
 		return;
 	LIBLCB_VERIF_YIELD("tp_shutdown.check");
-	tp->shutdown ++;
+	if (0 != __atomic_fetch_add(&tp->shutdown, 1, __ATOMIC_SEQ_CST))
+		return; /* Other thread do this right now. */
 	/* Private virtual thread. */
 	if (TP_THREAD_STATE_RUNNING == tp->pvt->state) { /* tp_create() may fail before start it. */
 		tp->pvt->state = TP_THREAD_STATE_STOP;
